@@ -108,6 +108,9 @@ func srPermAuth(rng *rand.Rand, auth []gmsl.PDU) []gmsl.PDU {
 func srDirectedV1Perms(c *Ctx) {
 	for j := 0; j < c.Scale(8, 60); j++ {
 		in := srDirectedV1(c.Rng)
+		if j%2 == 1 {
+			in = srDirectedV1Admin(c.Rng)
+		}
 		cs := srParse(in.ver, in.evjson)
 		c.Count("directed_v1_histories")
 		desc := fmt.Sprintf("directed v1 history %d: %d events, interdependent conflicted member keys", j, len(in.h.evs))
